@@ -375,8 +375,12 @@ fn run(ctx: &mut Ctx) {
             }
         }
     }
-    ctx.bound("clone_dyn", "clone_dyn on every DST kind of both crates and DummyDstTag for content lengths 0..=24 (every padding residue)");
-    for n in 0..=24usize {
+    ctx.bound("clone_dyn", "clone_dyn on every DST kind of both crates and DummyDstTag for content lengths 0..=24 (every padding residue), 255..=257, 4095..=4097, 65500..=65545 (every residue on both sides of a 64 KiB structure) and 2^20 - 12..=2^20 + 4");
+    let mut clone_ns: Vec<usize> = (0..=24).collect();
+    clone_ns.extend([255, 256, 257, 4095, 4096, 4097]);
+    clone_ns.extend(65500..=65545);
+    clone_ns.extend((1 << 20) - 12..=(1 << 20) + 4);
+    for n in clone_ns {
         let blob: Vec<u8> = (0..n).map(|i| marker(i, 63)).collect();
         let text: String = (0..n).map(|i| (b'a' + (i % 26) as u8) as char).collect();
         macro_rules! cl {
